@@ -15,6 +15,8 @@ CONSTANTS
   NoResetOnDrop = FALSE
   BugStartPlus2 = FALSE
   BugNoFallback = FALSE
+  LazyRunner = FALSE
+  NoRunnerStart = FALSE
   BugIgnoreBelowReq = FALSE
 INVARIANTS TypeOK SafeLedger
 PROPERTIES StepOK Converges
